@@ -164,7 +164,7 @@ def fixed_yaml_copy():
     return re.search(r"Definition fixed_yaml_copy : bool := (true|false)\.", txt).group(1) == "true"
 
 def fixed_D29():
-    """fourth one-line switch of Caches.v (true = repair D96: the Fortran extension module is named per generated source)"""
+    """fourth one-line switch of Caches.v (true = repair D96, in /repo since 8faa606: the Fortran extension module is named per source)"""
     txt = open(os.path.join(COQ, "theories", "Caches.v")).read()
     return re.search(r"Definition fixed_D29 : bool := (true|false)\.", txt).group(1) == "true"
 
@@ -656,8 +656,8 @@ def check(ctx):
         rp = json.load(open(ctx.replay))
         cases = [dict(hist=rp["case"]["hist"], final=rp["case"]["final"])] if "case" in rp else []
     else:
-        if ctx.tier == "quick":       # Fortran compilations (f2py, ~3-6 s each) belong to the thorough tier
-            corpus = [c for c in corpus if not is_fortran(c)]
+        # the Fortran regression cases of the corpus (reg_D96_*, ok_*fortran*: ~3 s per f2py run, one process per history) run at
+        # every tier, so that a revert of D96 is seen by the quick tier; the random Fortran stream belongs to the thorough tier
         fort = [] if ctx.tier == "quick" else [dict(hist=[], final=["fcompile", m, "m", False]) for m in FMODELS] + \
                [gen_fortran_case(ctx.rng) for _ in range(24)]
         cases = ([dict(hist=c["hist"], final=c["final"]) for c in corpus] + [dict(hist=[], final=f) for f in all_finals()] + fort +
